@@ -20,7 +20,7 @@ func init() {
 	Register("C35", &Info{
 		Run:   runC35,
 		Quick: 7500, Thor: 250000,
-		Rule: "a world = one server Config with a history of ticket operations: a real TLS 1.2 or 1.3 connection supplies genuine SessionState values (captured through Config.WrapSession), variants are derived by editing Extra/EarlyData; operations drawn per world: EncryptTicket/DecryptTicket round trip, single-bit flips at every region (IV, ciphertext, MAC), truncation/extension, explicit key sets and rotations through SetSessionTicketKeys (new key in front: old tickets still open; old key removed: no state), automatic key rotation under server clock jumps (1 h .. 30 d against the 7-day key lifetime), opening tickets with an Config.Clone() snapshots that must keep the key set they were taken with, independent AES-CTR + HMAC-SHA256 sealer keyed by TicketKeyFromBytes and sealing tickets independently for DecryptTicket, and finally a resumption through a forged ClientSessionState (drawn master secret patched into the state) that must resume with the supplied version/suite and equal exporters on both sides; one world in six: a Config with the legacy SessionTicketKey field set, 1-3 tasks calling EncryptTicket concurrently with one SetSessionTicketKeys call under a scheduler that switches at every lock operation - afterwards the keys in force must be the installed ones; non-trivial = a ticket was decrypted or rejected after a mutation/rotation; distinct = (operation sequence, key history, clock jumps)",
+		Rule: "a world = one server Config with a history of ticket operations: a real TLS 1.2 or 1.3 connection supplies genuine SessionState values (captured through Config.WrapSession), variants are derived by editing Extra/EarlyData; operations drawn per world: EncryptTicket/DecryptTicket round trip, single-bit flips at every region (IV, ciphertext, MAC), truncation/extension, explicit key sets and rotations through SetSessionTicketKeys (new key in front: old tickets still open; old key removed: no state), automatic key rotation under server clock jumps (1 h .. 30 d against the 7-day key lifetime), opening tickets with an Config.Clone() snapshots that must keep the key set they were taken with, independent AES-CTR + HMAC-SHA256 sealer keyed by TicketKeyFromBytes and sealing tickets independently for DecryptTicket, and finally a resumption through a forged ClientSessionState (drawn master secret patched into the state) that must resume with the supplied version/suite and equal exporters on both sides (and, when the supplied suite differs from the one sealed in the ticket, must not complete as a resumption under another suite); one world in six: a Config with the legacy SessionTicketKey field set, 1-3 tasks calling EncryptTicket concurrently with one SetSessionTicketKeys call under a scheduler that switches at every lock operation - afterwards the keys in force must be the installed ones; non-trivial = a ticket was decrypted or rejected after a mutation/rotation; distinct = (operation sequence, key history, clock jumps)",
 		Assumptions: []string{"the independent sealer follows the documented ticket format (16-byte IV, AES-128-CTR, HMAC-SHA256 over IV and ciphertext) with keys from TicketKeyFromBytes",
 			"automatic rotation: no claim between 6 and 8 days"},
 		Real: []string{"utls server Config ticket code, client session injection (MakeClientSessionState, SetSessionState) from /repo"},
@@ -399,7 +399,17 @@ func runC35(c *Ctx) {
 			} else {
 				leaf := Cert("ecdsa").X
 				chain := [][]*x509.Certificate{{leaf}}
-				forged := tls.MakeClientSessionState(ticket, cs0.Version, cs0.CipherSuite, master, []*x509.Certificate{leaf}, chain)
+				// the caller may also supply a suite other than the one sealed in the ticket: the server then
+				// resumes under the ticket's suite, and the client must not end up in a resumed connection
+				// under a suite it was not given
+				supplied := cs0.CipherSuite
+				if ch.Bool(30, "forge-other-suite") {
+					alt := map[uint16][]uint16{0xc02b: {0xc02c, 0xcca9}, 0xc02c: {0xc02b, 0xcca9}, 0xcca9: {0xc02b, 0xc02c}, 0xc02f: {0xc030, 0xcca8}, 0xc030: {0xc02f, 0xcca8}, 0xcca8: {0xc02f, 0xc030}}[cs0.CipherSuite]
+					if len(alt) > 0 {
+						supplied = alt[ch.Pick(len(alt), "alt-suite")]
+					}
+				}
+				forged := tls.MakeClientSessionState(ticket, cs0.Version, supplied, master, []*x509.Certificate{leaf}, chain)
 				forged.SetEMS(true)
 				var cEKM []byte
 				// (HelloGolang ignores UConn.Extensions by documentation, so injected sessions do not apply to it)
@@ -416,7 +426,13 @@ func runC35(c *Ctx) {
 				}
 				ops = append(ops, "forged-resumption/"+idi.Name)
 				fo := RunConn(c, w, sp)
-				if fo.BuildErr != nil {
+				if supplied != cs0.CipherSuite {
+					ops[len(ops)-1] += fmt.Sprintf("/supplied-suite=%04x-ticket-suite=%04x", supplied, cs0.CipherSuite)
+					c.Probe("forged-other-suite")
+					if fo.CDone && fo.CState.DidResume && fo.CState.CipherSuite != supplied {
+						fail("forged-session-wrong-parameters other-suite", "supplied suite %04x, the ticket holds %04x; the client completed a resumed handshake under %04x", supplied, cs0.CipherSuite, fo.CState.CipherSuite)
+					}
+				} else if fo.BuildErr != nil {
 					fail("forged-session-rejected-by-setter", "%v", fo.BuildErr)
 				} else if !fo.CDone || !fo.SDone {
 					fail("forged-session-handshake-failed "+idi.Name, "%s", fo.Describe())
